@@ -364,3 +364,70 @@ package x509
 //@ at der assert [a-decoded-crl-block-is-unwrapped] pd.called && pd.res0 != nil && pd.res0.Type == pemType ==> der.derBytes == pd.res0.Bytes
 //@ at der assert [anything-else-goes-to-the-der-parser-as-given] !(pd.called && pd.res0 != nil && pd.res0.Type == pemType) ==> der.derBytes == clBytes
 //@ at pd assert [pem-decoder-sees-the-whole-input] pd.data == clBytes
+
+// C11 totality of the remaining key / list / name parsers: safety-only contracts (no nil dereference,
+// no index or slice out of range, no failed assertion on any input), with the coherence clause where
+// the function has the (object, error) shape.
+//@ func ParsePKCS1PrivateKey
+//@ props C11
+//@ arith int
+//@ ensures [coherent] (result0 != nil && result1 == nil) || (result0 == nil && result1 != nil)
+
+//@ func ParsePKCS1PublicKey
+//@ props C11
+//@ arith int
+//@ ensures [coherent] (result0 != nil && result1 == nil) || (result0 == nil && result1 != nil)
+
+//@ func ParsePKCS8PrivateKey
+//@ props C11
+//@ arith int
+//@ ensures [coherent] (key != nil && err == nil) || (key == nil && err != nil)
+
+//@ func ParseECPrivateKey
+//@ props C11
+//@ arith int
+
+//@ func parseRevokedCertificate
+//@ props C11
+//@ arith int
+//@ requires errs != nil
+
+//@ func parseIssuingDistributionPoint
+//@ props C11
+//@ arith int
+//@ requires idp != nil && name != nil && errs != nil
+
+//@ func ParseCertificateListDER
+//@ props C11
+//@ arith int
+//@ site Fatal#1 as ft
+//@ site Empty#1 as em
+//@ ensures [an-object-only-when-no-fatal-entry-was-recorded] result0 != nil ==> ft.called && !ft.res
+//@ ensures [a-clean-list-means-no-error-at-all] result0 != nil && em.res ==> result1 == nil
+//@ ensures [findings-ride-along-with-the-object] result0 != nil && !em.res ==> typeof(result1) == *Errors
+//@ ensures [no-object-comes-with-an-error] result0 == nil ==> result1 != nil
+//@ ensures [a-fatal-list-gives-no-object] ft.called && ft.res ==> result0 == nil && typeof(result1) == *Errors
+
+//@ func parseGeneralNames
+//@ props C11
+//@ arith int
+//@ requires gname != nil
+
+//@ func parseGeneralName
+//@ props C11
+//@ arith int
+//@ requires gname != nil
+
+//@ func parseRPKIAddrBlocks
+//@ props C11
+//@ requires nfe != nil
+
+//@ func parseASIDChoice
+//@ props C11
+//@ arith int
+//@ requires nfe != nil
+
+//@ func parseRPKIASIdentifiers
+//@ props C11
+//@ arith int
+//@ requires nfe != nil
